@@ -14,7 +14,7 @@ declared bound  p <= -5  (violated by the initial condition p(t0)=0 itself, so t
 does not stop rockit from reporting a successful solve.
 """
 import sys
-sys.path.insert(0, '/tmp/nx_pydeps')   # pure python networkx, needed by SplineMethod
+sys.path.insert(0, '/verif/pydeps')   # pure python networkx, needed by SplineMethod
 import numpy as np, casadi as ca
 from rockit import Ocp, SplineMethod
 
